@@ -1131,8 +1131,8 @@ impl C12 {
             args.push(DATE_FMTS[sc.date_fmt as usize % 4].to_string());
         }
         let now = (today - ymd(1970, 1, 1)).whole_days() * 86_400 + 43_200;
-        let o = std::process::Command::new(format!("{}/debug/acb", dir))
-            .args(&args)
+        let mut cmd = std::process::Command::new(format!("{}/debug/acb", dir));
+        cmd.args(&args)
             .current_dir(&root)
             .env_clear()
             .env("HOME", format!("{}/home", root))
@@ -1141,8 +1141,9 @@ impl C12 {
             .env("ACBSIM_SEED", sc.hash_seed.to_string())
             .env("ACBSIM_NOW", now.to_string())
             .env("ACBSIM_PID", "4321")
-            .stdin(std::process::Stdio::null())
-            .output();
+            .stdin(std::process::Stdio::null());
+        crate::c09::own_memory_layout(&mut cmd, sc.hash_seed);
+        let o = cmd.output();
         if std::env::var("VERIF_KEEP_E2E").is_err() {
             let _ = std::fs::remove_dir_all(&root);
         }
